@@ -218,22 +218,36 @@ def r3_visited_on_representative(ctx, F):
                 tv = b.val(enq.args[1])
                 pathv = noref(tv.key[3][1]) if tv.kind == 'agg' and len(tv.key[3]) > 1 else None
                 pushes = [c for c in b.calls_to('Vec::push') if pathv is not None and noref(b.val(c.args[0])) == pathv]
-                last = [c for c in pushes if not b.in_cycle(c.bb) or True]
+                # the child path may also be built in one expression: `[old.as_slice(), &[fp]].concat()`
+                concat_ops = []
+                pc = b.call_at(pathv.key) if pathv is not None and pathv.kind == 'call' and not pathv.fields() else None
+                if pc is not None and pc.is_('slice::concat', 'slice::<impl [T]>::concat') and pc.args:
+                    av = noref(b.val(pc.args[0]))
+                    parts = av.key[3] if av.kind == 'agg' and av.key[0] == 'array' else ()
+                    for part in parts:
+                        part = noref(part)
+                        if part.kind == 'agg' and part.key[0] == 'array':
+                            concat_ops += list(part.key[3])      # `&[x, ..]`: the appended fingerprints
+                        elif part.kind == 'call' and b.call_at(part.key) is not None and \
+                                b.call_at(part.key).is_('Vec::as_slice', 'Deref::deref', 'AsRef::as_ref'):
+                            pass                                  # the path so far
+                        else:
+                            concat_ops.append(None)
                 from taint import origins_under
                 nfp = 0
                 bad_src = None
                 sym_sws = [sw for sw in b.switches if sw.kind == 'variant' and noref(sw.on).kind == 'arg' and
                            noref(sw.on).key == cb.p_symmetry and not noref(sw.on).projs]
+                from taint import origin_vals as _ov
+
+                def of_successor(o):
+                    return noref(b.val(o.args[0])) == sv or _ov(b, o.args[0]) == {sv}
                 for c in [(c_, lab) for c_ in pushes for lab in ('Some', 'None')]:
                     c, lab = c
                     # `symmetry` does not change: judge the pushed fingerprint separately for the runs with
                     # and without a symmetry function (two matches on it cannot disagree)
                     live = b.reach_under([(sym_sws, lab)], [0]) if sym_sws else None
                     org = origins_under(b, c.args[1], live)
-                    from taint import origin_vals as _ov
-
-                    def of_successor(o):
-                        return noref(b.val(o.args[0])) == sv or _ov(b, o.args[0]) == {sv}
                     if org and all(not isinstance(o, (str, tuple)) and o.is_('fingerprint') and
                                    of_successor(o) for o in org):
                         nfp += 1          # the successor's own fingerprint
@@ -242,6 +256,21 @@ def r3_visited_on_representative(ctx, F):
                         pass              # copying the elements of the path so far
                     else:
                         bad_src = sorted(repr(o) for o in org)
+                for cv in concat_ops:
+                    cv = noref(cv) if cv is not None else None
+                    fc = b.call_at(cv.key) if cv is not None and cv.kind == 'call' and not cv.fields() else None
+                    if fc is None and cv is not None and cv.kind == 'local':
+                        from taint import vals_of
+                        vs = vals_of(b, cv)
+                        fcs = [b.call_at(x.key) if x.kind == 'call' and not x.fields() else None for x in vs]
+                        # chosen by `match symmetry`: every candidate must be the successor's own fingerprint
+                        if fcs and all(f is not None and f.is_('fingerprint') and of_successor(f) for f in fcs):
+                            nfp += 1
+                            continue
+                    if fc is not None and fc.is_('fingerprint') and of_successor(fc):
+                        nfp += 1
+                    else:
+                        bad_src = [repr(cv)]
                 ok = nfp >= 1 and bad_src is None
                 ctx.check(ok, rule, 'path-continues-with-original', b,
                           good='the fingerprint appended to the path is that of the un-canonicalised successor',
